@@ -376,6 +376,12 @@ class RefsEngine(Engine):
                     return PyObj(RS.mk["CallRef"](fn, tuple_term([self.as_v(a) for a in args]), RS.EMPTY_TUPLE), "CallRef")
         return super().call_method(recv, name, e, cx, recv_node)
 
+    def method_hook(self, recv, name, e, cx, recv_node):
+        if isinstance(recv, PyObj) and name == "items" and not e.args:
+            from contracts.refs_ctor import dict_items
+            return PyObj(dict_items(recv.t))
+        return super().method_hook(recv, name, e, cx, recv_node)
+
     def call_value(self, fv, e, cx):
         if isinstance(fv, PyObj):
             return self.apply_opaque(fv.t, e, cx)
